@@ -82,7 +82,8 @@ ORACLE = {
     'gsequ': square(1, ['SLU_NC'], 'SLU_GE', nonneg_only=True),
     'sp_trsv': flag(1, 'LU') + flag(2, 'NTC') + flag(3, 'NU')
                + [(4, ['($4->nrow != $4->ncol)']), (4, ['($4->nrow < 0)']), (5, ['($5->nrow != $5->ncol)']), (5, ['($5->nrow < 0)'])],
-    'sp_gemv': [(1, ['(strncmp($1, "N", 1) != 0)', '(strncmp($1, "n", 1) != 0)', '(strncmp($1, "T", 1) != 0)', '(strncmp($1, "C", 1) != 0)']),
+    'sp_gemv': [(1, ['(strncmp($1, "N", 1) != 0)', '(strncmp($1, "n", 1) != 0)', '(strncmp($1, "T", 1) != 0)', '(strncmp($1, "t", 1) != 0)',
+                     '(strncmp($1, "C", 1) != 0)', '(strncmp($1, "c", 1) != 0)']),
                 (3, ['($3->nrow < 0)']), (3, ['($3->ncol < 0)']), (5, ['($5 == 0)']), (8, ['($8 == 0)'])],
 }
 # documented protected arguments: must not be written on the error exit (by position name)
